@@ -120,3 +120,32 @@ def codec_events(func):
 
     ast_walk(func.raw.get("ast"), f)
     return out
+
+
+def ast_exprs(node):
+    """every expression tree (statements, conditions, for-headers) under an AST node"""
+    out = []
+
+    def f(n, st):
+        k = n[0]
+        if k == "s":
+            out.append(n[1])
+        elif k == "if" or k == "while" or k == "switch":
+            out.append(n[1])
+        elif k == "do":
+            out.append(n[2])
+        elif k == "for":
+            for x in (n[1], n[2], n[3]):
+                if x is not None:
+                    out.append(x)
+        return True
+
+    ast_walk(node, f)
+    return out
+
+
+def ast_calls(node, into_seen=True):
+    from .facts import calls_in
+    for e in ast_exprs(node):
+        for c in calls_in(e, into_seen):
+            yield c
